@@ -345,7 +345,7 @@ func (m *mirror) runJob(j Job, seed int64, replay string) (*Report, string, erro
 	// the cooperative scheduler runs one goroutine at a time: a single P avoids futex hand-offs
 	// (measured 1.45x faster); free-running scenarios get real parallelism
 	procs := "GOMAXPROCS=1"
-	for _, pfx := range []string{"hs.agree", "auth.", "udp.route", "wire.udp", "ws.segment", "tls.segment", "tls.large", "codec.", "session.garbage", "dgram.sizes", "cfg.", "adminapi.", "wire.names", "climain.", "redir.tcp", "panel.history", "panel.valve", "replay.crosstransport", "sbuf.orders", "sbuf.bfs"} {
+	for _, pfx := range []string{"hs.agree", "auth.", "udp.route", "wire.udp", "ws.segment", "tls.segment", "tls.large", "codec.", "session.garbage", "dgram.sizes", "cfg.", "adminapi.", "wire.names", "climain.", "redir.tcp", "mux.longlived", "panel.history", "panel.valve", "replay.crosstransport", "sbuf.orders", "sbuf.bfs"} {
 		if strings.HasPrefix(j.Scenario, pfx) && j.Scenario != "panel.valve.sched" {
 			procs = "GOMAXPROCS=4"
 		}
